@@ -1,8 +1,438 @@
-//! C01 harness entry (not implemented yet).
+//! C01 / C02 / C03 / C10: gds21 GdsLibrary::write and GdsLibrary::from_bytes on JSON-described
+//! libraries and hex byte strings. Doubles travel as `to_bits()` integers, strings as hex of
+//! their UTF-8 bytes. Each stage (write, read, re-read) catches its own panic so that the
+//! result of earlier stages is not lost.
+use gds21::*;
 use l21h::{json, Value};
+use std::panic::{catch_unwind, AssertUnwindSafe};
 
-fn run(_case: &Value) -> Value {
-    json!({"harness_error": "not implemented"})
+fn unhex(s: &str) -> Vec<u8> {
+    let b = s.as_bytes();
+    (0..b.len() / 2)
+        .map(|i| {
+            let h = |c: u8| -> u8 {
+                match c {
+                    b'0'..=b'9' => c - b'0',
+                    b'a'..=b'f' => c - b'a' + 10,
+                    b'A'..=b'F' => c - b'A' + 10,
+                    _ => 0,
+                }
+            };
+            h(b[2 * i]) * 16 + h(b[2 * i + 1])
+        })
+        .collect()
+}
+fn hex(b: &[u8]) -> String {
+    let mut s = String::with_capacity(b.len() * 2);
+    for x in b {
+        s.push_str(&format!("{:02x}", x));
+    }
+    s
+}
+/// bytes of a case: {"hex": "..."} or {"parts": [{"hex": ..} | {"rep": [byte, n]}, ...]}
+fn bytes_of(v: &Value) -> Vec<u8> {
+    if let Some(s) = v.as_str() {
+        return unhex(s);
+    }
+    let mut out = Vec::new();
+    if let Some(parts) = v.as_array() {
+        for p in parts {
+            if let Some(s) = p.as_str() {
+                out.extend(unhex(s));
+            } else if let Some(r) = p.as_array() {
+                let b = r[0].as_u64().unwrap() as u8;
+                let n = r[1].as_u64().unwrap() as usize;
+                out.extend(std::iter::repeat(b).take(n));
+            }
+        }
+    }
+    out
+}
+fn string_of(v: &Value) -> String {
+    String::from_utf8(bytes_of(v)).expect("case string must be valid UTF-8")
+}
+fn i16_of(v: &Value) -> i16 {
+    v.as_i64().expect("i16") as i16
+}
+fn i32_of(v: &Value) -> i32 {
+    v.as_i64().expect("i32") as i32
+}
+fn f64_of(v: &Value) -> f64 {
+    f64::from_bits(v.as_u64().expect("f64 bits"))
+}
+fn opt<T>(v: &Value, f: impl Fn(&Value) -> T) -> Option<T> {
+    if v.is_null() {
+        None
+    } else {
+        Some(f(v))
+    }
+}
+fn dt_of(v: &[Value]) -> GdsDateTime {
+    GdsDateTime {
+        year: i16_of(&v[0]),
+        month: i16_of(&v[1]),
+        day: i16_of(&v[2]),
+        hour: i16_of(&v[3]),
+        minute: i16_of(&v[4]),
+        second: i16_of(&v[5]),
+    }
+}
+fn dates_of(v: &Value) -> GdsDateTimes {
+    let a = v.as_array().expect("dates");
+    GdsDateTimes {
+        modified: dt_of(&a[0..6]),
+        accessed: dt_of(&a[6..12]),
+    }
+}
+fn points_of(v: &Value) -> Vec<GdsPoint> {
+    // {"rep": [x, y, n]} or flat list
+    if let Some(r) = v.get("rep") {
+        let x = i32_of(&r[0]);
+        let y = i32_of(&r[1]);
+        let n = r[2].as_u64().unwrap() as usize;
+        return vec![GdsPoint::new(x, y); n];
+    }
+    let a = v.as_array().expect("xy");
+    (0..a.len() / 2)
+        .map(|i| GdsPoint::new(i32_of(&a[2 * i]), i32_of(&a[2 * i + 1])))
+        .collect()
+}
+fn point_of(v: &Value) -> GdsPoint {
+    GdsPoint::new(i32_of(&v[0]), i32_of(&v[1]))
+}
+fn bits_of(v: &Value) -> (u8, u8) {
+    (v[0].as_u64().unwrap() as u8, v[1].as_u64().unwrap() as u8)
+}
+fn strans_of(v: &Value) -> GdsStrans {
+    GdsStrans {
+        reflected: v["r"].as_bool().unwrap(),
+        abs_mag: v["am"].as_bool().unwrap(),
+        abs_angle: v["aa"].as_bool().unwrap(),
+        mag: opt(&v["mag"], f64_of),
+        angle: opt(&v["angle"], f64_of),
+    }
+}
+fn props_of(v: &Value) -> Vec<GdsProperty> {
+    v.as_array()
+        .map(|a| {
+            a.iter()
+                .map(|p| GdsProperty {
+                    attr: i16_of(&p[0]),
+                    value: string_of(&p[1]),
+                })
+                .collect()
+        })
+        .unwrap_or_default()
+}
+fn elem_of(v: &Value) -> GdsElement {
+    let elflags = opt(&v["elflags"], |x| {
+        let b = bits_of(x);
+        GdsElemFlags(b.0, b.1)
+    });
+    let plex = opt(&v["plex"], |x| GdsPlex(i32_of(x)));
+    let properties = props_of(&v["props"]);
+    match v["k"].as_str().expect("k") {
+        "boundary" => GdsElement::GdsBoundary(GdsBoundary {
+            layer: i16_of(&v["layer"]),
+            datatype: i16_of(&v["datatype"]),
+            xy: points_of(&v["xy"]),
+            elflags,
+            plex,
+            properties,
+        }),
+        "path" => GdsElement::GdsPath(GdsPath {
+            layer: i16_of(&v["layer"]),
+            datatype: i16_of(&v["datatype"]),
+            xy: points_of(&v["xy"]),
+            width: opt(&v["width"], i32_of),
+            path_type: opt(&v["path_type"], i16_of),
+            begin_extn: opt(&v["begin_extn"], i32_of),
+            end_extn: opt(&v["end_extn"], i32_of),
+            elflags,
+            plex,
+            properties,
+        }),
+        "sref" => GdsElement::GdsStructRef(GdsStructRef {
+            name: string_of(&v["name"]),
+            xy: point_of(&v["xy"]),
+            strans: opt(&v["strans"], strans_of),
+            elflags,
+            plex,
+            properties,
+        }),
+        "aref" => {
+            let p = points_of(&v["xy"]);
+            GdsElement::GdsArrayRef(GdsArrayRef {
+                name: string_of(&v["name"]),
+                xy: [p[0].clone(), p[1].clone(), p[2].clone()],
+                cols: i16_of(&v["cols"]),
+                rows: i16_of(&v["rows"]),
+                strans: opt(&v["strans"], strans_of),
+                elflags,
+                plex,
+                properties,
+            })
+        }
+        "text" => GdsElement::GdsTextElem(GdsTextElem {
+            string: string_of(&v["string"]),
+            layer: i16_of(&v["layer"]),
+            texttype: i16_of(&v["texttype"]),
+            xy: point_of(&v["xy"]),
+            presentation: opt(&v["presentation"], |x| {
+                let b = bits_of(x);
+                GdsPresentation(b.0, b.1)
+            }),
+            path_type: opt(&v["path_type"], i16_of),
+            width: opt(&v["width"], i32_of),
+            strans: opt(&v["strans"], strans_of),
+            elflags,
+            plex,
+            properties,
+        }),
+        "node" => GdsElement::GdsNode(GdsNode {
+            layer: i16_of(&v["layer"]),
+            nodetype: i16_of(&v["nodetype"]),
+            xy: points_of(&v["xy"]),
+            elflags,
+            plex,
+            properties,
+        }),
+        "box" => {
+            let p = points_of(&v["xy"]);
+            GdsElement::GdsBox(GdsBox {
+                layer: i16_of(&v["layer"]),
+                boxtype: i16_of(&v["boxtype"]),
+                xy: [p[0].clone(), p[1].clone(), p[2].clone(), p[3].clone(), p[4].clone()],
+                elflags,
+                plex,
+                properties,
+            })
+        }
+        k => panic!("harness: bad element kind {}", k),
+    }
+}
+fn lib_of(v: &Value) -> GdsLibrary {
+    let mut lib = GdsLibrary::new(string_of(&v["name"]));
+    lib.version = i16_of(&v["version"]);
+    lib.dates = dates_of(&v["dates"]);
+    lib.units = GdsUnits(f64_of(&v["units"][0]), f64_of(&v["units"][1]));
+    for s in v["structs"].as_array().expect("structs") {
+        let mut st = GdsStruct::new(string_of(&s["name"]));
+        st.dates = dates_of(&s["dates"]);
+        for e in s["elems"].as_array().expect("elems") {
+            st.elems.push(elem_of(e));
+        }
+        lib.structs.push(st);
+    }
+    lib
+}
+
+// ---- output
+fn jdates(d: &GdsDateTimes) -> Value {
+    let f = |t: &GdsDateTime| vec![t.year, t.month, t.day, t.hour, t.minute, t.second];
+    let mut v = f(&d.modified);
+    v.extend(f(&d.accessed));
+    json!(v)
+}
+fn jpoints(p: &[GdsPoint]) -> Value {
+    let mut v = Vec::with_capacity(p.len() * 2);
+    for q in p {
+        v.push(q.x);
+        v.push(q.y);
+    }
+    json!(v)
+}
+fn jstr(s: &str) -> Value {
+    json!(hex(s.as_bytes()))
+}
+fn jstrans(s: &Option<GdsStrans>) -> Value {
+    match s {
+        None => Value::Null,
+        Some(s) => json!({"r": s.reflected, "am": s.abs_mag, "aa": s.abs_angle,
+            "mag": s.mag.map(|x| x.to_bits()), "angle": s.angle.map(|x| x.to_bits())}),
+    }
+}
+fn jprops(p: &[GdsProperty]) -> Value {
+    json!(p.iter().map(|q| json!([q.attr, hex(q.value.as_bytes())])).collect::<Vec<_>>())
+}
+fn jflags(e: &Option<GdsElemFlags>) -> Value {
+    match e {
+        None => Value::Null,
+        Some(e) => json!([e.0, e.1]),
+    }
+}
+fn jplex(e: &Option<GdsPlex>) -> Value {
+    match e {
+        None => Value::Null,
+        Some(e) => json!(e.0),
+    }
+}
+fn jelem(e: &GdsElement) -> Value {
+    match e {
+        GdsElement::GdsBoundary(b) => json!({"k": "boundary", "layer": b.layer, "datatype": b.datatype, "xy": jpoints(&b.xy),
+            "elflags": jflags(&b.elflags), "plex": jplex(&b.plex), "props": jprops(&b.properties)}),
+        GdsElement::GdsPath(b) => json!({"k": "path", "layer": b.layer, "datatype": b.datatype, "xy": jpoints(&b.xy),
+            "width": b.width, "path_type": b.path_type, "begin_extn": b.begin_extn, "end_extn": b.end_extn,
+            "elflags": jflags(&b.elflags), "plex": jplex(&b.plex), "props": jprops(&b.properties)}),
+        GdsElement::GdsStructRef(b) => json!({"k": "sref", "name": jstr(&b.name), "xy": [b.xy.x, b.xy.y], "strans": jstrans(&b.strans),
+            "elflags": jflags(&b.elflags), "plex": jplex(&b.plex), "props": jprops(&b.properties)}),
+        GdsElement::GdsArrayRef(b) => json!({"k": "aref", "name": jstr(&b.name), "xy": jpoints(&b.xy), "cols": b.cols, "rows": b.rows,
+            "strans": jstrans(&b.strans),
+            "elflags": jflags(&b.elflags), "plex": jplex(&b.plex), "props": jprops(&b.properties)}),
+        GdsElement::GdsTextElem(b) => json!({"k": "text", "string": jstr(&b.string), "layer": b.layer, "texttype": b.texttype,
+            "xy": [b.xy.x, b.xy.y],
+            "presentation": b.presentation.as_ref().map(|p| vec![p.0, p.1]), "path_type": b.path_type, "width": b.width,
+            "strans": jstrans(&b.strans),
+            "elflags": jflags(&b.elflags), "plex": jplex(&b.plex), "props": jprops(&b.properties)}),
+        GdsElement::GdsNode(b) => json!({"k": "node", "layer": b.layer, "nodetype": b.nodetype, "xy": jpoints(&b.xy),
+            "elflags": jflags(&b.elflags), "plex": jplex(&b.plex), "props": jprops(&b.properties)}),
+        GdsElement::GdsBox(b) => json!({"k": "box", "layer": b.layer, "boxtype": b.boxtype, "xy": jpoints(&b.xy),
+            "elflags": jflags(&b.elflags), "plex": jplex(&b.plex), "props": jprops(&b.properties)}),
+    }
+}
+fn jlib(l: &GdsLibrary) -> Value {
+    json!({"name": jstr(&l.name), "version": l.version, "dates": jdates(&l.dates),
+        "units": [l.units.0.to_bits(), l.units.1.to_bits()],
+        "structs": l.structs.iter().map(|s| json!({"name": jstr(&s.name), "dates": jdates(&s.dates),
+            "elems": s.elems.iter().map(jelem).collect::<Vec<_>>()})).collect::<Vec<_>>()})
+}
+fn ekind(e: &GdsError) -> &'static str {
+    match e {
+        GdsError::RecordDecode(..) => "RecordDecode",
+        GdsError::RecordLen(..) => "RecordLen",
+        GdsError::InvalidDataType(..) => "InvalidDataType",
+        GdsError::InvalidRecordType(..) => "InvalidRecordType",
+        GdsError::Unsupported(..) => "Unsupported",
+        GdsError::Parse { .. } => "Parse",
+        GdsError::Boxed(..) => "Boxed",
+        GdsError::Str(..) => "Str",
+    }
+}
+fn panic_msg(p: Box<dyn std::any::Any + Send>) -> String {
+    if let Some(s) = p.downcast_ref::<&str>() {
+        s.to_string()
+    } else if let Some(s) = p.downcast_ref::<String>() {
+        s.clone()
+    } else {
+        "panic".to_string()
+    }
+}
+
+enum Out<T> {
+    Ok(T),
+    Err(String),
+    Panic(String),
+}
+fn do_write(lib: &GdsLibrary) -> Out<Vec<u8>> {
+    let r = catch_unwind(AssertUnwindSafe(|| {
+        let mut buf: Vec<u8> = Vec::new();
+        lib.write(&mut buf).map(|_| buf)
+    }));
+    match r {
+        Ok(Ok(b)) => Out::Ok(b),
+        Ok(Err(e)) => Out::Err(ekind(&e).to_string()),
+        Err(p) => Out::Panic(panic_msg(p)),
+    }
+}
+fn do_read(bytes: &[u8]) -> Out<GdsLibrary> {
+    let r = catch_unwind(AssertUnwindSafe(|| GdsLibrary::from_bytes(bytes)));
+    match r {
+        Ok(Ok(l)) => Out::Ok(l),
+        Ok(Err(e)) => Out::Err(ekind(&e).to_string()),
+        Err(p) => Out::Panic(panic_msg(p)),
+    }
+}
+fn jw(o: &Out<Vec<u8>>, want_bytes: bool) -> Value {
+    match o {
+        Out::Ok(b) => {
+            if want_bytes {
+                json!({"ok": hex(b)})
+            } else {
+                json!({"ok": b.len()})
+            }
+        }
+        Out::Err(e) => json!({ "err": e }),
+        Out::Panic(m) => json!({ "panic": m }),
+    }
+}
+fn jr(o: &Out<GdsLibrary>) -> Value {
+    match o {
+        Out::Ok(l) => json!({"ok": jlib(l)}),
+        Out::Err(e) => json!({ "err": e }),
+        Out::Panic(m) => json!({ "panic": m }),
+    }
+}
+
+fn run(case: &Value) -> Value {
+    let op = case["op"].as_str().unwrap_or("");
+    match op {
+        // library -> bytes
+        "write" => {
+            let lib = lib_of(&case["lib"]);
+            json!({"w": jw(&do_write(&lib), true)})
+        }
+        // library -> bytes -> library
+        "write_read" => {
+            let lib = lib_of(&case["lib"]);
+            let w = do_write(&lib);
+            let nob = case["nobytes"].as_bool().unwrap_or(false);
+            let mut out = json!({"w": jw(&w, !nob)});
+            if let Out::Ok(b) = &w {
+                let r = do_read(b);
+                // Rust `==` between what was written and what was read
+                if let Out::Ok(l2) = &r {
+                    out["eq"] = json!(*l2 == lib);
+                }
+                out["r"] = jr(&r);
+            }
+            out
+        }
+        // bytes -> library
+        "read" => {
+            let b = bytes_of(&case["bytes"]);
+            json!({"r": jr(&do_read(&b))})
+        }
+        // bytes -> library -> bytes -> library
+        "read_write_read" => {
+            let b = bytes_of(&case["bytes"]);
+            let r = do_read(&b);
+            let mut out = json!({"r": jr(&r)});
+            if let Out::Ok(l) = &r {
+                let w = do_write(l);
+                out["w"] = jw(&w, false);
+                if let Out::Ok(b2) = &w {
+                    let r2 = do_read(b2);
+                    if let Out::Ok(l2) = &r2 {
+                        out["eq"] = json!(l2 == l);
+                    }
+                    out["r2"] = jr(&r2);
+                }
+            }
+            out
+        }
+        // time of reading n copies of a unit stream body between a prologue and an epilogue (linearity measurement)
+        "read_time" => {
+            let pre = bytes_of(&case["pre"]);
+            let unit = bytes_of(&case["unit"]);
+            let post = bytes_of(&case["post"]);
+            let n = case["n"].as_u64().unwrap() as usize;
+            let mut b = pre.clone();
+            for _ in 0..n {
+                b.extend_from_slice(&unit);
+            }
+            b.extend_from_slice(&post);
+            let t0 = std::time::Instant::now();
+            let r = do_read(&b);
+            let dt = t0.elapsed().as_nanos() as u64;
+            let tag = match &r {
+                Out::Ok(l) => format!("ok:{}", l.structs.len()),
+                Out::Err(e) => format!("err:{}", e),
+                Out::Panic(m) => format!("panic:{}", m),
+            };
+            json!({"len": b.len(), "ns": dt, "r": tag})
+        }
+        _ => json!({"harness_error": "bad op"}),
+    }
 }
 
 fn main() {
